@@ -87,6 +87,7 @@ def lockstep(case):
   pop = algos.population(SIZES, case.get('seed', 0))
   stats = {'transitions': 0, 'states': 1}
   outs = set()
+  viols = []
 
   def rec(hist, sa, sb):
     if len(hist) >= depth:
@@ -102,17 +103,23 @@ def lockstep(case):
       na, nb = step_a(sa, cohort), step_b(sb, cohort)
       ga = {k: np.asarray(v, np.float64) for k, v in pa(na).items()}
       gb = {k: np.asarray(v, np.float64) for k, v in pb(nb).items()}
-      require(all(np.all(np.isfinite(v)) for v in ga.values()), 'parameters are not finite', algos.plist(gb), algos.plist(ga),
-              case=nc)
-      require(algos.params_close(ga, gb, rtol=2e-5, atol=2e-6), 'after round %d the server parameters of the two systems '
-              'differ' % len(h2), algos.plist(gb), algos.plist(ga), case=nc)
+      bad = None
+      if not all(np.all(np.isfinite(v)) for v in ga.values()):
+        bad = 'parameters are not finite'
+      elif not algos.params_close(ga, gb, rtol=2e-5, atol=2e-6):
+        bad = 'after round %d the server parameters of the two systems differ' % len(h2)
+      if bad:
+        # report, do not descend (the two systems have diverged), keep exploring the siblings
+        viols.append({'msg': bad, 'expected': algos.plist(gb), 'observed': algos.plist(ga), 'case': nc})
+        stats['transitions'] += 1
+        continue
       stats['transitions'] += 1
       stats['states'] += 1
       outs.add(core.digest(algos.plist(gb)))
       rec(h2, na, nb)
   rec([], ia, ib)
   return {'evals': stats['transitions'], 'states': stats['states'], 'transitions': stats['transitions'],
-          'traces': stats['transitions'], 'outcomes': sorted(outs), 'nontrivial': True,
+          'traces': stats['transitions'], 'outcomes': sorted(outs), 'nontrivial': True, 'violations': viols,
           'keys': [[case['pair'], case['lr'], case['batching'], i] for i in range(stats['transitions'])],
           'sample': {'pair': case['pair'], 'lr': case['lr'], 'batching': case['batching'],
                      'transitions': stats['transitions'], 'distinct_parameter_vectors': len(outs)}}
